@@ -156,6 +156,15 @@ def sibling(chain_id, level, tag):
     return part
 
 
+@m.memento_function(cluster="c", version="c1")
+def csibling(chain_id, level, tag):
+    """A child, stored in cluster c, of the partition that chain(chain_id, level - 1) (default cluster) returns."""
+    REC.hit("csibling", chain_id, level, tag)
+    part = _build_level(T.get(chain_id + "/sib/" + tag))
+    part._merge_parent = chain(chain_id, level - 1)
+    return part
+
+
 @m.memento_function(version="c1")
 def stage(chain_id, level, kind):
     """Returns a partition that holds the partition chain(chain_id, level) returns as one of its values."""
